@@ -7,7 +7,7 @@ import Gearpy.Model.Control
 over a prefix `us` of the grid (`ts = us ++ vs`); `f` is false on the record of every strict
 non-empty prefix of `us` (every earlier computed instant), and if the run ended early (`vs ≠ []`)
 `f` is true on the last record.  Nothing is recorded after it (`stop_times`).  The initial
-instant of a fresh run is never tested (`run` only tests inside the loop).
+instant of a fresh run is never tested (`fresh_run_records_two`).
 `stopCond` instantiates `f` with a sensor reading, one of the five operators and a threshold.
 -/
 
@@ -60,6 +60,67 @@ theorem stop_times (c : Cfg) (dt : Q) (f : Rec → Bool) (ts : List Q) (s s' : S
     ∃ us vs, ts = us ++ vs ∧ s'.recs.map (·.time) = s.recs.map (·.time) ++ us := by
   obtain ⟨us, vs, hts, hl, _, _⟩ := stop_prefix c dt f ts s s' h
   exact ⟨us, vs, hts, loop_times c dt us s s' hl⟩
+
+/-- the initial instant of a fresh run is never tested: whatever the stop predicate says about it, a
+    fresh run of `n ≥ 1` steps that does not fail records the initial instant **and at least one more** -/
+theorem fresh_run_records_two (c : Cfg) (dt : Q) (n : Nat) (f : Rec → Bool) (s s' : St) (h0 : s.recs = [])
+    (h : run c dt (n + 1) (some f) s = .ok s') : 2 ≤ s'.recs.length := by
+  unfold run at h
+  have : lastTime s = none := by simp [lastTime, h0]
+  simp only [this] at h
+  split at h
+  · simp at h
+  · rename_i s0 hc
+    obtain ⟨r0, hr0, _⟩ := compute_rec c _ s0 0 hc
+    obtain ⟨us, vs, hts, hl, _, _⟩ := stop_prefix c dt f _ s0 s' h
+    have hus : us ≠ [] := by
+      intro he
+      -- an empty prefix means the loop returned before its first step: impossible on a non-empty grid
+      subst he
+      simp only [List.nil_append] at hts
+      have hg : grid 0 dt (n + 1) ≠ [] := by unfold grid; simp [List.range_succ]
+      -- the stopped loop over a non-empty grid always performs the first step
+      unfold grid at h hg
+      cases hgr : (List.range (n + 1)).map (fun i => (0 : Q) + ((i + 1 : Nat) : Q) * dt) with
+      | nil => rw [hgr] at hg; exact hg rfl
+      | cons t ts =>
+        rw [hgr] at h
+        simp only [loop] at h
+        cases h1 : stepAt c dt s0 t with
+        | error e => simp [h1] at h
+        | ok s1 =>
+          obtain ⟨r1, hr1, _⟩ := stepAt_recs c dt s0 s1 t h1
+          simp only [loop, Except.ok.injEq] at hl
+          -- `hl : s0 = s'`, while the stopped loop went through `s1` whose history is longer
+          subst hl
+          simp only [h1] at h
+          split at h
+          · simp only [Except.ok.injEq] at h
+            have := congrArg (fun x => x.recs.length) h
+            simp [hr1] at this
+          · -- the loop continued from s1: its result has at least s1's records
+            have hmono : ∀ (ts : List Q) (a b : St), loop c dt (some f) ts a = .ok b → a.recs.length ≤ b.recs.length := by
+              intro ts
+              induction ts with
+              | nil => intro a b hab; simp [loop] at hab; subst hab; exact le_refl _
+              | cons u us ih =>
+                intro a b hab
+                simp only [loop] at hab
+                cases h2 : stepAt c dt a u with
+                | error e => simp [h2] at hab
+                | ok a1 =>
+                  obtain ⟨ra, hra, _⟩ := stepAt_recs c dt a a1 u h2
+                  simp only [h2] at hab
+                  split at hab
+                  · simp only [Except.ok.injEq] at hab; subst hab; simp [hra]
+                  · have := ih a1 b hab; simp [hra] at this ⊢; omega
+            have := hmono ts s1 s0 h
+            simp [hr1] at this
+    have hlen := loop_times c dt us s0 s' hl
+    have : (s'.recs.map (·.time)).length = (s0.recs.map (·.time)).length + us.length := by rw [hlen]; simp
+    simp only [List.length_map, hr0, h0, List.nil_append, List.length_singleton] at this
+    have : 0 < us.length := List.length_pos_iff.mpr hus
+    omega
 
 /-- the predicate tested is the comparison of the sensor's reading of the record just appended -/
 theorem stopNow_stopCond (cx : CmpCtx) (sen : Sensor) (op : Cmp) (thr : Q) (s : St) (r : Rec)
